@@ -600,10 +600,17 @@ func (idx *HNSWIndex) searchLayer(query []float32, entryPoint uint32, ef int, la
 	result := newMaxHeap()
 	defer putMaxHeap(result) // Return to pool when done
 
-	// Check entry point BEFORE adding to candidates
+	// The result heap may now be empty while candidates remain (only soft-deleted
+	// vertices seen so far), so the bound below must never be 0.
+	if ef < 1 {
+		ef = 1
+	}
+
+	// Always start the traversal at the entry point; a soft-deleted entry point is
+	// walked through but never reported.
+	d := idx.distance.Calculate(query, idx.nodes[entryPoint].Vector())
+	heap.Push(candidates, candidate{id: entryPoint, distance: d})
 	if !idx.deletedNodes.Contains(entryPoint) {
-		d := idx.distance.Calculate(query, idx.nodes[entryPoint].Vector())
-		heap.Push(candidates, candidate{id: entryPoint, distance: d})
 		heap.Push(result, candidate{id: entryPoint, distance: d})
 	}
 	visited.Add(entryPoint)
@@ -620,11 +627,6 @@ func (idx *HNSWIndex) searchLayer(query []float32, entryPoint uint32, ef int, la
 		node := idx.nodes[current.id]
 		if layer < len(node.Edges) {
 			for _, neighborID := range node.Edges[layer] {
-				// SOFT DELETE CHECK: Skip deleted neighbors
-				if idx.deletedNodes.Contains(neighborID) {
-					continue
-				}
-
 				if !visited.Contains(neighborID) {
 					visited.Add(neighborID)
 
@@ -632,10 +634,13 @@ func (idx *HNSWIndex) searchLayer(query []float32, entryPoint uint32, ef int, la
 
 					if result.Len() < ef || d < (*result)[0].distance {
 						heap.Push(candidates, candidate{id: neighborID, distance: d})
-						heap.Push(result, candidate{id: neighborID, distance: d})
+						// SOFT DELETE: walk through deleted vertices, never report them
+						if !idx.deletedNodes.Contains(neighborID) {
+							heap.Push(result, candidate{id: neighborID, distance: d})
 
-						if result.Len() > ef {
-							heap.Pop(result)
+							if result.Len() > ef {
+								heap.Pop(result)
+							}
 						}
 					}
 				}
